@@ -140,6 +140,13 @@ def run_history(res, exe, rng, hidx):
                 return None
             return m.check_ticks(t0, sim.tick, emitted)
 
+        if ms_choices and rng.random() < 0.1:
+            # power-up with an application that sets its heartbeat time when it is told that the node initialises (API call inside the
+            # mode change callback, before the object entries are initialised): one producer, with the time 1017h then holds
+            ms0 = rng.choice(ms_choices)
+            do("initcb 1017 0 %d" % ms0); do("restart"); do("initcb 0")
+            m.__init__(nid, freq, ms0)
+            res.counters["heartbeat_time_set_in_init_notification"] += 1
         t0, evs = do("start")
         m.set_mode(PREOP, sim.tick)
         err = observe(t0, evs, True)
